@@ -279,7 +279,7 @@ theorem opAt_hon_umap {w : World} {s : Shape} {v : Val} (c : PCtx w .A s v) (π 
         rcases hrun R1 _ hp1 hT1 with ⟨e', hspec, h, hre⟩ | ⟨u', r', m1, hspec, heq2, _⟩
         · cases h
           simp only [hre, Bool.false_eq_true, if_false, StepRes]
-          refine ⟨v, .umap vs, (.node [.ulist (Shape.entryW kw) (w.a.base + offsetOf s v π) vs.length (w.a.base + offsetOf s v π) (w.a.base + offsetOf s v π + size (.umap kw e) (.umap vs)) inner1 pmb1]), ?_, hres, ?_, ?_, rfl, rfl, rfl, rfl, rfl, rfl, Or.inr ⟨_, hspec, rfl, rfl, rfl⟩⟩
+          refine ⟨v, .umap vs, (.node [.ulist (Shape.entryW kw) (w.a.base + offsetOf s v π) vs.length (w.a.base + offsetOf s v π) (w.a.base + offsetOf s v π + size (.umap kw e) (.umap vs)) inner1 pmb1]), ?_, hres, ?_, ?_, rfl, rfl, rfl, rfl, rfl, rfl, Or.inr (Or.inl ⟨_, hspec, rfl, rfl, rfl⟩)⟩
           · exact pctx_after c w.a.mem R1 c.good hbytes rfl rfl (by rw [← hbytes]; exact hfit)
           · simpa [World.set, World.get] using hp1
           · simpa [World.set, World.get] using hT1
